@@ -200,7 +200,12 @@ def dbval_order_lemma():
     """SQLite's comparison is total on non-NULL values: proved once here (z3, using the TEXT/BLOB order
     axioms) and then used as a quantified fact in the iterkeys obligations."""
     a, b = z3.Consts('lem_a lem_b', SM.DbVal)
-    r = discharge('C03.lemma.dbval_trichotomy', 'lemma', order_axioms(), trichotomy(a, b), function='SQLite comparison (model)')
+    # only the two totality axioms are needed, at the text / blob payloads of a and b: the instances are
+    # handed over explicitly so that the proof is quantifier-free (it used to time out on a loaded machine)
+    ta, tb, ba, bb = SM.DbVal.tv(a), SM.DbVal.tv(b), SM.DbVal.bv(a), SM.DbVal.bv(b)
+    tl, bl = SM.text_lt, SM.blob_lt
+    insts = [z3.Or(ta == tb, tl(ta, tb), tl(tb, ta)), z3.Or(ba == bb, bl(ba, bb), bl(bb, ba))]
+    r = discharge('C03.lemma.dbval_trichotomy', 'lemma', insts, trichotomy(a, b), function='SQLite comparison (model)')
     return [r]
 
 
